@@ -225,9 +225,21 @@ def r_rpgap(db, rep):
 BACKPTR = {"table": "kpos", "pairs": "hpos"}      # container array field -> Trecord field that records the slot
 
 
-def _arr_role(f, base):
-    """'table' / 'pairs' if the subscripted array is Thash::table / Tarray::pairs, or a local that the function later installs as one."""
+def _arr_role(f, base, depth=0):
+    """'table' / 'pairs' if the subscripted array is Thash::table / Tarray::pairs, a local that the function later installs as
+    one, or a pointer parameter to which some caller passes such an array."""
     s = strip(base)
+    if s["k"] == "DeclRefExpr" and s.get("dk") == "param" and depth < 3:
+        pi = s["pi"]
+        for g in f.db.funcs.values():
+            if not g.body:
+                continue
+            for c in g.calls():
+                if c.get("f") == f.id and pi < len(c.get("args", [])):
+                    r = _arr_role(g, c["args"][pi], depth + 1)
+                    if r is not None:
+                        return r
+        return None
     if s["k"] == "MemberExpr" and s.get("n") in BACKPTR:
         return s["n"]
     if s["k"] == "DeclRefExpr" and s.get("dk") == "local":
@@ -242,7 +254,7 @@ def _arr_role(f, base):
     return None
 
 
-@rule("R-BACKPTR", 8, "Re-Pair's pair records carry back-pointers into the hash table and the frequency arrays (kpos, hpos): every store of "
+@rule("R-BACKPTR", 6, "Re-Pair's pair records carry back-pointers into the hash table and the frequency arrays (kpos, hpos): every store of "
                       "a record id into such a container slot is accompanied by the matching back-pointer update (same id, same slot), in the "
                       "function itself or through its returned slot at every call site; deleteHash/hashRepos/incFreq index the containers by them")
 def r_backptr(db, rep):
